@@ -50,6 +50,7 @@ pub fn cmd_extone(a: &Args) {
     let fakesat = a.get("fakesat", "");
     let mode = a.get("mode", "ok");
     let nv = a.num("nvars", 6);
+    let mode = if mode.starts_with("trunc:") { mode } else { mode };
     let mut s = ExternalSatSolver::new(fakesat, vec!["--mode".to_string(), mode]);
     for v in 1..nv {
         s.add_clause(vec![Literal::from(v as isize), Literal::from(-(v as isize + 1))]);
@@ -107,7 +108,7 @@ pub fn cmd_ext(a: &Args) {
         let res = util::par_map(jobs, threads.min(4), |mode| {
             let t0 = Instant::now();
             let mut child = std::process::Command::new(&me)
-                .args(["extone", "--fakesat", &fakesat, "--mode", mode, "--nvars", "6"])
+                .args(["extone", "--fakesat", &fakesat, "--mode", mode, "--nvars", if mode.starts_with("trunc:") { "31" } else { "6" }])
                 .stdout(std::process::Stdio::piped())
                 .stderr(std::process::Stdio::null())
                 .spawn()
